@@ -121,7 +121,7 @@ func digitPositions(s string, from int) []int {
 // classify names the symptom of a disagreement from what the implementation decoded:
 // the name of the decoded (path, instant) is a proper prefix / suffix / infix of the candidate, or the
 // candidate has the shape of a produced name with a field outside its range.
-func classify(toks []c26lib.Tok, cand string, fixedPath string, pa recordstore.Path) string {
+func classify(toks []c26lib.Tok, cand string, fixedPath string, pa recordstore.Path, producible bool) string {
 	p := pa.Path
 	if fixedPath != "" {
 		p = fixedPath
@@ -136,6 +136,9 @@ func classify(toks []c26lib.Tok, cand string, fixedPath string, pa recordstore.P
 		return "leading-text-ignored"
 	case strings.Contains(cand, enc):
 		return "leading-and-trailing-text-ignored"
+	}
+	if producible {
+		return "other-path-or-instant"
 	}
 	if len(c26lib.ParseLax(toks, cand, fixedPath)) != 0 {
 		return "field-out-of-range"
@@ -266,8 +269,8 @@ func main() {
 					good = containsInstant(model, pa.Path, mode == "R", pa.Start)
 				}
 				if !good {
-					cl := classify(toks, name, fixed, pa)
-					if cl == "other" || cl == "same-name" {
+					cl := classify(toks, name, fixed, pa, true)
+					if cl == "other-path-or-instant" || cl == "same-name" {
 						cl += ":" + f.name + ":" + ambClass
 					}
 					viol("misdecoded:"+cl, rep, func() string {
@@ -352,7 +355,7 @@ func main() {
 					"candidate": n, "derivedFrom": name, "deviation": dev}
 				switch {
 				case ok && len(model) == 0:
-					cl := classify(toks, n, fixed, pa)
+					cl := classify(toks, n, fixed, pa, false)
 					if cl == "other" || cl == "same-name" {
 						cl += ":" + f.name + ":" + dev
 					}
@@ -374,8 +377,8 @@ func main() {
 					r.Distinct(fmt.Sprintf("%s|%s|%s|%s|producible-rejected", f.name, z.Name, mode, dev))
 				case ok:
 					if !containsInstant(model, pa.Path, mode == "R", pa.Start) {
-						cl := classify(toks, n, fixed, pa)
-						if cl == "other" || cl == "same-name" {
+						cl := classify(toks, n, fixed, pa, true)
+						if cl == "other-path-or-instant" || cl == "same-name" {
 							cl += ":" + f.name + ":" + dev
 						}
 						viol("misdecoded:"+cl, rep2, func() string {
